@@ -98,6 +98,7 @@ func cmdVC(args []string) {
 	fs := flag.NewFlagSet("vc", flag.ExitOnError)
 	dump := fs.String("dump", "", "dump SMT of obligations whose name contains this")
 	verbose := fs.Bool("v", false, "verbose")
+	kinds := fs.String("k", "", "only discharge obligations of these kinds (comma separated, e.g. post,assert,step)")
 	fs.Parse(args)
 	prog, err := LoadProgram(repoDir, []string{"./..."})
 	if err != nil {
@@ -129,6 +130,17 @@ func cmdVC(args []string) {
 				fmt.Printf("%s: OUT OF SUBSET: %s\n", full, rep.OutOfSubset)
 			}
 			t0 := time.Now()
+			if *kinds != "" {
+				var sel []*Oblig
+				for _, o := range rep.Obls {
+					for _, k := range strings.Split(*kinds, ",") {
+						if o.Kind == k {
+							sel = append(sel, o)
+						}
+					}
+				}
+				rep.Obls = sel
+			}
 			discharge(rep.Obls, 16)
 			nok := 0
 			for _, o := range rep.Obls {
